@@ -42,6 +42,13 @@ def ctx (s : TkS) (au : Auth) (who : List Addr) : Ctx := { auths := au.toList wh
 
 def parseInt (x : String) : Option Int := x.toInt?
 
+/-- upgrade to the same code + the migration in the ledger context `c`, run through `Cgp.Token.step` -/
+def upgradeMigrate (s : TkS) (st : State) (c : Ctx) : TkS × StepOut :=
+  match Token.step st c .upgradeMigrate with
+  | (_, .error .unauthorized) => (s, ⟨"err", "unauthorized"⟩)
+  | (_, .error e) => (s, ⟨"err", errName e⟩)
+  | (st', .ok _) => ({ s with st := some st' }, ⟨"ok", "ok"⟩)
+
 def step (s : TkS) (t : List String) : TkS × StepOut :=
   match t with
   | ["time", now, seq] =>
@@ -107,10 +114,10 @@ def step (s : TkS) (t : List String) : TkS × StepOut :=
         | some n, some au => finish s (transferOwnership st (ctx s au [st.owner]) n)
         | _, _ => bad s op
       | "tk.upgrade_migrate", [auth] =>
-        -- upgrade to the same code + migration of the current tree: owner only, and the identity on everything modelled
-        if auth = "@" then (s, ⟨"ok", "ok"⟩) else
+        -- upgrade to the same code + migration of the current tree: the model's `.upgradeMigrate`
+        if auth = "@" then upgradeMigrate s st (ctx s .all [st.owner]) else
         match parseAuth auth with
-        | some au => if st.owner ∈ au.toList [st.owner] then (s, ⟨"ok", "ok"⟩) else (s, ⟨"err", "unauthorized"⟩)
+        | some au => upgradeMigrate s st (ctx s au [st.owner])
         | none => bad s op
       | "tk.set_admin", [n, au] =>
         match parseAddr n, parseAuth au with
